@@ -5,7 +5,7 @@ Statement (full strength), over the scanner model M1 with dialects `tpl` (tpl/sc
 and `xgo` (scanner/scanner.go):
 
     theorem tpl_eq_xgo (U : UCls) (src : Array UInt8) (comments noSemis : Bool) :
-        sharedLexemesOnly U src = true →
+        sharedLexemesOnly U comments noSemis src = true →
         agree32 (scan ⟨.tpl, comments, noSemis, U⟩ src) (scan ⟨.xgo, comments, noSemis, U⟩ src) = true
 
 (`agree32`: both runs finish and return the same token boundaries (offsets), kinds (by `String()`),
@@ -88,16 +88,16 @@ def srcUnit : Array UInt8 := #[0x31, 0x6B, 0x6D, 0x20, 0x78]         -- "1km x"
 
 theorem C32_exclusions_are_differences :
     (agree32 (scan (cfg .tpl true) srcKeyword) (scan (cfg .xgo true) srcKeyword) = false ∧
-      sharedLexemesOnly noU srcKeyword = false) ∧
+      sharedLexemesOnly noU true false srcKeyword = false) ∧
     (agree32 (scan (cfg .tpl true) srcPow) (scan (cfg .xgo true) srcPow) = false ∧
-      sharedLexemesOnly noU srcPow = false) ∧
+      sharedLexemesOnly noU true false srcPow = false) ∧
     (agree32 (scan (cfg .tpl true) srcCRComment) (scan (cfg .xgo true) srcCRComment) = false ∧
-      sharedLexemesOnly noU srcCRComment = false) := by
+      sharedLexemesOnly noU true false srcCRComment = false) := by
   decide +kernel
 
 /-- number + unit followed by white space: both scanners report the unit right behind the number -/
 theorem C32_unit_offset_witness :
-    sharedLexemesOnly noU srcUnit = true ∧
+    sharedLexemesOnly noU true false srcUnit = true ∧
     agree32 (scan (cfg .tpl true) srcUnit) (scan (cfg .xgo true) srcUnit) = true ∧
     ((scan (cfg .xgo true) srcUnit).toks.map fun t => (t.pos, t.stop)) = [(0, 1), (1, 3), (4, 5), (5, 5), (5, 5)] := by
   decide +kernel
@@ -108,7 +108,7 @@ def srcIn : Array UInt8 :=
     0x20, 0x23, 0x20, 0x63, 0x0A, 0x79, 0x20, 0x3C, 0x2D, 0x20, 0x22, 0x73, 0x22, 0x20, 0x7E, 0x20, 0x27, 0x63, 0x27]
 
 theorem C32_domain_examples :
-    sharedLexemesOnly noU srcIn = true ∧
+    sharedLexemesOnly noU true false srcIn = true ∧ sharedLexemesOnly noU false false srcIn = true ∧
     agree32 (scan (cfg .tpl true) srcIn) (scan (cfg .xgo true) srcIn) = true ∧
     agree32 (scan (cfg .tpl false) srcIn) (scan (cfg .xgo false) srcIn) = true ∧
     12 ≤ (scan (cfg .xgo true) srcIn).toks.length := by
